@@ -95,12 +95,40 @@ static int genpos(u64 seed, int n) {
 
 // ---------------------------------------------------------------------------------------
 // in-process engine: the real UCIProtocol / EngineControl / EngineMainThread objects
+/** Output sink of the in-process engine: thread safe (UCI thread and search thread both write),
+ *  counts the completed `info depth ...` lines so that the harness can wait for "the search proper
+ *  has begun" (everything before the first iteration, in particular updateTB, is done then)
+ *  instead of sleeping for a fixed time. */
+struct SyncBuf : std::streambuf {
+    std::mutex m;
+    std::string cur;
+    std::atomic<int> depthLines;
+    SyncBuf() : depthLines(0) {}
+    void put(char c) {
+        if (c == '\n') {
+            if (cur.compare(0, 10, "info depth") == 0) depthLines++;
+            cur.clear();
+        } else
+            cur.push_back(c);
+    }
+    int overflow(int c) override {
+        if (c != EOF) { std::lock_guard<std::mutex> L(m); put((char)c); }
+        return c;
+    }
+    std::streamsize xsputn(const char* s, std::streamsize n) override {
+        std::lock_guard<std::mutex> L(m);
+        for (std::streamsize i = 0; i < n; i++) put(s[i]);
+        return n;
+    }
+};
+
 struct Proc {
     std::istringstream in;
-    std::ostringstream out;
+    SyncBuf buf;
+    std::ostream out;
     UCIProtocol uci;
     std::thread th;
-    Proc() : uci(in, out) {
+    Proc() : out(&buf), uci(in, out) {
         th = std::thread([this]() { uci.engineThread.mainLoop(); });
         cmd("isready");
     }
@@ -109,7 +137,7 @@ struct Proc {
         uci.engineThread.quit();
         th.join();
     }
-    void cmd(const std::string& line) { uci.handleCommand(line, out); out.str(""); }
+    void cmd(const std::string& line) { uci.handleCommand(line, out); }
     // EngineControl::waitReady() only waits for pending options while no Search object exists
     // (sc stays set after the first search), so wait on the engine thread directly as well
     void ready() { cmd("isready"); uci.engineThread.waitOptionsSet(); }
@@ -232,20 +260,19 @@ static int ops() {
             std::string rest; std::getline(is, rest);
             size_t a = rest.find('|'), b = rest.find('|', a + 1);
             std::string posCmd = trim(rest.substr(a + 1, b - a - 1)), goCmd = trim(rest.substr(b + 1));
+            int before = p.buf.depthLines.load();
             p.cmd(posCmd);
             p.cmd(goCmd);
-            if (mode == "stop") {
-                std::this_thread::sleep_for(std::chrono::milliseconds(wait));
-                p.cmd("stop");
-            } else if (mode == "tbstop") {
-                // `go infinite` on a root that gets an on-demand tablebase: the stop must not depend
-                // on the wall clock (an early stop aborts the generation, F4): wait until the
-                // tablebase is installed (updateTB shrinks usedSize as its last action)
+            if (mode == "stop" || mode == "tbstop") {
+                // `go infinite`: the stop must not depend on the wall clock (an early stop aborts an
+                // on-demand tablebase generation, F4): wait for the first `info depth` line, which
+                // is printed after updateTB() has returned; `wait` = safety timeout in seconds
+                int limit = mode == "tbstop" ? wait : 60;
                 auto t0 = std::chrono::steady_clock::now();
-                while (p.tt().usedSize >= p.tt().tableSize) {
+                while (p.buf.depthLines.load() == before) {
                     std::this_thread::sleep_for(std::chrono::milliseconds(1));
-                    if (std::chrono::steady_clock::now() - t0 > std::chrono::seconds(wait)) {
-                        std::cerr << "TIMEOUT: tablebase not generated within " << wait << " s: " << line << std::endl;
+                    if (std::chrono::steady_clock::now() - t0 > std::chrono::seconds(limit)) {
+                        std::cerr << "TIMEOUT: no `info depth` line within " << limit << " s: " << line << std::endl;
                         std::cout.flush();
                         _exit(4);
                     }
